@@ -135,13 +135,13 @@ COMPOSE_POISON = [
 def poison_sites(K, used_only=True):
     sites = []
     for f, bads in COMPOSE_POISON:
-        for b in bads:
+        for b in pools.with_generic(bads):
             sites.append({"kind": "compose", "field": f, "bad": b, "good": K["compose"][f]})
     used = sorted(set(i for _, _, i in K["cells"]))
     for i in used:
         img = K["imgs"][i]
         for f, bads in IMG_POISON:
-            for b in bads:
+            for b in pools.with_generic(bads):
                 sites.append({"kind": "img", "iid": i, "field": f, "bad": b, "good": img[f]})
         if not img["unified"]:
             sites.append({"kind": "img", "iid": i, "field": "additional_variants", "bad": ["Server"], "good": img["additional_variants"]})
